@@ -50,9 +50,10 @@ pub enum Code {
     DupWeakExpectPanic, // a = wvar
     PutG,           // a = src var                               (move var into empty G)
     FillBag,        // a = var, b = k  (park self-clones in the object's own traced bag until strong count = MAX - k)
+    NewOwning,      // a = dst var, b = src var   (Cc::new of a value whose cell 0 already owns the handle moved out of src)
 }
 
-pub const NCODES: u8 = Code::FillBag as u8 + 1;
+pub const NCODES: u8 = Code::NewOwning as u8 + 1;
 
 #[derive(Clone, Copy, PartialEq, Eq, Hash, PartialOrd, Ord)]
 pub struct Op {
@@ -142,6 +143,7 @@ impl fmt::Debug for Op {
             UpgradeExpectPanic => write!(f, "UpgradeAtMax(w{a})")?,
             DupWeakExpectPanic => write!(f, "DupWeakAtMax(w{a})")?,
             PutG => write!(f, "PutG(v{a}->G)")?,
+            NewOwning => write!(f, "NewOwning(v{a},c0<-v{b})")?,
             FillBag => {
                 let c = self.c as usize;
                 if c == 0 {
